@@ -48,6 +48,8 @@ CORPUS: Dict[str, str] = {
     "loops": IMPORTS + "a = analog_read(\"A0\")\nfor i in range(3):\n    q = i\n    try:\n        w = q + 1\n        e = w * 2\n    except Exception:\n        r = 0\nk = 0\nwhile k < 2:\n    k += 1\n    try:\n        t1 = k\n        t0 = k + 1\n    except Exception:\n        t2 = 5\nmon.write(k)\n",
     "try": IMPORTS + "try:\n    one = 1\n    two = 2\n    three = 3\nexcept Exception:\n    four = 4\n    five = 5\nmon.write(one)\n",
     "ultrasonics": IMPORTS + "front = Ultrasonic(2, 3)\nrear = Ultrasonic(4, 5)\nleft = Ultrasonic(6, 7)\nright = Ultrasonic(8, 9)\nwhile True:\n    mon.write(right.measure_distance())\n    mon.write(front.measure_distance())\n    mon.write(left.measure_distance())\n    mon.write(rear.measure_distance())\n",
+    "ultrasonics_rewired": IMPORTS + "front = Ultrasonic(22, 23)\nrear = Ultrasonic(24, 25, sensor=\"HC-SR04\")\nled = Led(13)\nwhile True:\n    if front.measure_distance() < rear.measure_distance():\n        led.on()\n",
+    "renamed_devices": IMPORTS + "led = Led(5)\nsv = RGBLed(9, 10, 11)\nm = Servo(6)\nbz = DCMotor(2, 3, 4)\nrgb = Buzzer(8)\npot = Button(7)\nmain = LCD(i2c_addr=39)\nwhile True:\n    led.toggle()\n    sv.on(1, 2, 3)\n    m.write(10)\n    bz.set_speed(0.5)\n    rgb.play_tone(440)\n    main.line(0, \"x\")\n    if pot.is_pressed():\n        led.off()\n",
     "buttons_lcds": IMPORTS + "def hit():\n    mon.write(1)\nokb = Button(2, on_click=hit)\ncancel = Button(3)\nmenu = Button(4)\nmain = LCD(rs=12, en=11, d4=5, d5=6, d6=7, d7=8)\naux = LCD(i2c_addr=39)\nzed = LCD(i2c_addr=38, cols=20, rows=4)\nmain.animate(\"scroll\", 0, \"hello\")\nzed.animate(\"blink\", 1, \"x\")\naux.animate(\"bounce\", 0, \"yo\", loop=True)\nwhile True:\n    if menu.is_pressed():\n        mon.write(cancel.is_pressed())\n",
     "functions": IMPORTS + "def add(p, q):\n    return p + q\ndef scale(v):\n    t = v * 1.5\n    return t\ndef both(v):\n    return add(v, 1) + scale(v)\nx = add(1, 2)\ny = add(1.5, 2)\nz = both(3)\nmon.write(x)\nmon.write(y)\nmon.write(z)\n",
     "swap": IMPORTS + "a = 1\nb = 2\na, b = b, a\nwhile True:\n    a, b = b, a + b\n    c, d = a, b\n    mon.write(a)\n",
@@ -57,6 +59,7 @@ CORPUS: Dict[str, str] = {
     "shadow_builtins": IMPORTS + "def abs(v):\n    return v\ndef len(v):\n    return 3\ndef max(p, q):\n    return p\ndef min(p, q):\n    return q\ndef int(v):\n    return v\na = analog_read(\"A0\")\nmon.write(abs(a) + len(a) + max(a, 1) + min(a, 2) + int(a))\n",
     "range_limits": IMPORTS + "a = analog_read(\"A0\")\nitems = [a, 2]\nn = a\nfor i in range(abs(a - 5)):\n    mon.write(i)\nfor j in range(len(items)):\n    items.append(j)\nfor k in range(min(a, 3)):\n    k += 1\n    mon.write(k)\nfor m in range(n):\n    n = n - 1\nwhile True:\n    for step in range(max(a, 2)):\n        step = step * 2\n        mon.write(step)\n",
     "list_returns": IMPORTS + "def ramp(fine):\n    if fine > 2:\n        return [0.25, 0.5, 0.75]\n    return [1, 2, 3]\ndef names(k):\n    if k > 1:\n        return [1, 2]\n    if k > 0:\n        return [1.5]\n    return [True]\nr = ramp(1)\nmon.write(r[0])\nq = names(2)\nmon.write(q[0])\n",
+    "case_names": IMPORTS + "a = analog_read(\"A0\")\nif a > 3:\n    t = 1\n    T = 2\n    Kp = 3\n    kp = 4\n    KP = 5\nelse:\n    KP = 0\n    kp = 1\n    Kp = 2\n    T = 3\n    t = 4\nfor i in range(2):\n    x = i\n    X = i + 1\nmon.write(t + T + Kp + kp + KP + x + X)\n",
     "mixed_returns": IMPORTS + "def pick(v):\n    if v > 3:\n        return 1\n    if v > 2:\n        return 2.5\n    if v > 1:\n        return True\n    return 0\ndef lab(v):\n    if v:\n        return \"a\"\n    return \"b\"\nmon.write(pick(2))\nmon.write(lab(1))\n",
     "helper_globals": IMPORTS + "def seta():\n    global ga, gb, gc\n    ga = 1\n    gb = 2.5\n    gc = \"s\"\ndef setb():\n    global gd, ga\n    gd = 4\n    ga = 5\nseta()\nsetb()\nzz, yy = 1, 2\nzz, xx = 3, 4\nwhile True:\n    mon.write(ga)\n    gd = gd + 1\n",
     "globals_only": IMPORTS + "count = 0\nname = \"x\"\nratio = 0.5\nflag = True\n",
@@ -409,59 +412,85 @@ def explore_histories(report: Report, tier: str) -> dict:
 # ------------------------------------------------------------------------------------------
 # (3) schedules: re-entrant interleaving at every call boundary / line
 # ------------------------------------------------------------------------------------------
-def explore_schedules(report: Report, tier: str) -> dict:
+def _trace_files():
+    import Reduino.transpile.emitter as E
+    import Reduino.transpile.parser as P
+
+    return {P.__file__, E.__file__}
+
+
+def _count_points(a: str, granularity: str) -> int:
     from Reduino.transpile.emitter import emit
     from Reduino.transpile.parser import parse
-    import Reduino.transpile.parser as P
-    import Reduino.transpile.emitter as E
 
-    files = {P.__file__, E.__file__}
-    pairs = [("swap", "functions"), ("branches", "loops")] if tier != "thorough" else [("swap", "functions"), ("branches", "loops"), ("lists", "swap"), ("functions", "functions")]
+    files = _trace_files()
+    counter = {"n": 0}
+
+    def count_tracer(frame, event, arg):
+        if frame.f_code.co_filename in files:
+            if event == granularity or (granularity == "line" and event == "call"):
+                counter["n"] += 1
+            return count_tracer if granularity == "line" else None
+        return None
+
+    sys.settrace(count_tracer)
+    try:
+        emit(parse(CORPUS[a]))
+    finally:
+        sys.settrace(None)
+    return counter["n"]
+
+
+def _schedule_chunk(args) -> Optional[int]:
+    """Run transpile(A) with a re-entrant transpile(B) at every preemption point k in [lo, hi); returns the first
+    k at which an output changes (None if none does)."""
+    a, b, granularity, lo, hi = args
+    from Reduino.transpile.emitter import emit
+    from Reduino.transpile.parser import parse
+
+    files = _trace_files()
+    seq_a, seq_b = emit(parse(CORPUS[a])), emit(parse(CORPUS[b]))
+    for k in range(lo, hi):
+        state = {"n": 0, "inner": None}
+
+        def tracer(frame, event, arg):
+            if frame.f_code.co_filename in files:
+                if event == granularity or (granularity == "line" and event == "call"):
+                    if state["n"] == k and state["inner"] is None:
+                        sys.settrace(None)
+                        try:
+                            state["inner"] = emit(parse(CORPUS[b]))
+                        finally:
+                            sys.settrace(tracer)
+                    state["n"] += 1
+                return tracer if granularity == "line" else None
+            return None
+
+        sys.settrace(tracer)
+        try:
+            outer = emit(parse(CORPUS[a]))
+        finally:
+            sys.settrace(None)
+        if outer != seq_a or state["inner"] != seq_b:
+            return k
+    return None
+
+
+def explore_schedules(report: Report, tier: str) -> dict:
+    from rmc import pipeline
+
+    pairs = [("swap", "functions"), ("branches", "loops")] if tier != "thorough" else [("swap", "functions"), ("branches", "loops"), ("lists", "swap"), ("functions", "functions"), ("range_limits", "shadow_builtins"), ("helper_globals", "list_returns")]
     granularity = "line" if tier == "thorough" else "call"
     total_points = 0
     for a, b in pairs:
-        seq_a, seq_b = emit(parse(CORPUS[a])), emit(parse(CORPUS[b]))
-        # count the preemption points of A
-        counter = {"n": 0}
-
-        def count_tracer(frame, event, arg):
-            if frame.f_code.co_filename in files:
-                if event == granularity or (granularity == "line" and event == "call"):
-                    counter["n"] += 1
-                return count_tracer if granularity == "line" else None
-            return None
-
-        sys.settrace(count_tracer)
-        try:
-            emit(parse(CORPUS[a]))
-        finally:
-            sys.settrace(None)
-        points = counter["n"]
+        points = _count_points(a, granularity)
         total_points += points
-        step = 1 if tier == "thorough" or points < 1500 else 1
-        for k in range(0, points, step):
-            state = {"n": 0, "inner": None}
-
-            def tracer(frame, event, arg):
-                if frame.f_code.co_filename in files:
-                    if event == granularity or (granularity == "line" and event == "call"):
-                        if state["n"] == k and state["inner"] is None:
-                            sys.settrace(None)
-                            try:
-                                state["inner"] = emit(parse(CORPUS[b]))
-                            finally:
-                                sys.settrace(tracer)
-                        state["n"] += 1
-                    return tracer if granularity == "line" else None
-                return None
-
-            sys.settrace(tracer)
-            try:
-                outer = emit(parse(CORPUS[a]))
-            finally:
-                sys.settrace(None)
-            report.transitions += 1
-            if outer != seq_a or state["inner"] != seq_b:
+        size = max(1, points // 64)
+        chunks = [(a, b, granularity, lo, min(points, lo + size)) for lo in range(0, points, size)]
+        results = pipeline.pool().imap(_schedule_chunk, chunks) if pipeline.WORKERS > 1 and len(chunks) > 1 else map(_schedule_chunk, chunks)
+        report.transitions += points
+        for k in results:
+            if k is not None:
                 key = explore.history_key(ID, "schedule", [("preempt", (a, b, k), {})])
                 report.violation(key, f"transpiling {b!r} re-entrantly at {granularity} #{k} of transpiling {a!r} changes an output", {"subject": "schedule", "a": a, "b": b, "point": k, "granularity": granularity})
                 break
@@ -487,6 +516,8 @@ def real_seeds(report: Report, tier: str) -> dict:
 def main(tier: str, seed: int, only=None) -> int:
     report = Report(ID, LEVEL, tier, seed)
     stats = {}
+    # the module-level state right after import, before this process has transpiled anything
+    pristine = module_state()
     if not only or "orders" in only:
         stats["orders"] = explore_orders(report, tier)
     if not only or "histories" in only:
@@ -495,6 +526,10 @@ def main(tier: str, seed: int, only=None) -> int:
         stats["schedules"] = explore_schedules(report, tier)
     if not only or "seeds" in only:
         stats["hashseeds"] = real_seeds(report, tier)
+    if module_state() != pristine:
+        key = explore.history_key(ID, "history", [("pristine", ("all",), {})])
+        report.violation(key, "history pristine: the module-level state of the transpiler after the run differs from its state right after import (something is remembered between transpilations)",
+                         {"subject": "history", "kind": "pristine", "history": []})
     report.extra_cov["parts"] = stats
     report.bounds = {"deviations": "<= 1 non-default set iteration order per execution (quick) / <= 2 (thorough); all permutations for sets of <= 5 elements, rotations + reversal beyond",
                      "histories": "all call sequences of length <= 2 over 12 corpus scripts (thorough: + length 3 over 5)", "schedules": "re-entrant second transpilation at every call boundary (quick) / every line (thorough)"}
